@@ -336,6 +336,25 @@ pub fn run(ctx: &Ctx) -> i32 {
         }
         Eval { nontrivial: out.pings > 0 && (out.late_or_absent || out.coincidence), violations: out.violations, classes, watchdog: out.watchdog }
     });
+    // saved regressions (shrunk inputs of defects found earlier), replayed without the generator
+    let mut agg = agg;
+    if let Ok(rd) = std::fs::read_dir(format!("{}/corpus/C10", VERIF_ROOT)) {
+        let mut files: Vec<_> = rd.flatten().map(|e| e.path()).filter(|p| p.extension().is_some_and(|x| x == "json")).collect();
+        files.sort();
+        let mut pre = Agg::default();
+        for f in files {
+            let Ok(text) = std::fs::read_to_string(&f) else { continue };
+            let Ok(v) = serde_json::from_str::<serde_json::Value>(&text) else { continue };
+            let Ok(case) = serde_json::from_value::<Case>(v["input"].clone()) else { continue };
+            let out = eval(&case);
+            pre.record(ctx, "case-c10", &case, Eval { nontrivial: out.pings > 0, classes: vec!["saved-regression-input"], violations: out.violations, watchdog: out.watchdog });
+        }
+        let f = pre.failure.clone();
+        agg.merge(pre);
+        if f.is_some() {
+            agg.failure = f;
+        }
+    }
     finish(
         ctx,
         agg,
